@@ -10,6 +10,7 @@ import (
 	"net/http"
 	"os"
 	"strconv"
+	"strings"
 	"sync"
 	"time"
 
@@ -269,6 +270,16 @@ func logClientIP() bool {
 	return err == nil && enabled
 }
 
+// scrubAddr removes the textual form of ip from err unless logging of client addresses is enabled.
+// GeoIP lookup errors quote the address that was looked up (e.g. an IPv6 address in an IPv4-only
+// database), and that address is the client's.
+func scrubAddr(err error, ip net.IP) error {
+	if err == nil || ip == nil || logClientIP() {
+		return err
+	}
+	return errors.New(strings.ReplaceAll(err.Error(), ip.String(), "_"))
+}
+
 func tryShareRegistrationOverAPI(reg *DecoyRegistration, apiEndpoint string, logger *log.Logger) {
 	c2a := reg.GenerateC2SWrapper()
 	if c2a == nil {
@@ -509,11 +520,11 @@ func (rm *RegistrationManager) NewRegistrationC2SWrapper(c2sw *pb.C2SWrapper, in
 	reg.registrationAddr = clientAddr
 	reg.regCC, err = rm.GetGeoIP().CC(reg.registrationAddr)
 	if err != nil {
-		return nil, fmt.Errorf("failed geoip cc lookup: %w", err)
+		return nil, fmt.Errorf("failed geoip cc lookup: %w", scrubAddr(err, reg.registrationAddr))
 	}
 	reg.regASN, err = rm.GetGeoIP().ASN(reg.registrationAddr)
 	if err != nil {
-		return nil, fmt.Errorf("failed geoip asn lookup: %w", err)
+		return nil, fmt.Errorf("failed geoip asn lookup: %w", scrubAddr(err, reg.registrationAddr))
 	}
 
 	if dstPort != -1 {
@@ -576,7 +587,7 @@ func handleConnectingTpReg(regManager *RegistrationManager, reg *DecoyRegistrati
 
 				cc, err := regManager.GetGeoIP().CC(reg.registrationAddr)
 				if err != nil {
-					logger.Errorln("Failed to get CC:", err)
+					logger.Errorln("Failed to get CC:", scrubAddr(err, reg.registrationAddr))
 					return
 				}
 
@@ -584,7 +595,7 @@ func handleConnectingTpReg(regManager *RegistrationManager, reg *DecoyRegistrati
 				if cc != "unk" {
 					asn, err = regManager.GetGeoIP().ASN(reg.registrationAddr)
 					if err != nil {
-						logger.Errorln("Failed to get ASN:", err)
+						logger.Errorln("Failed to get ASN:", scrubAddr(err, reg.registrationAddr))
 						return
 					}
 				}
